@@ -88,6 +88,16 @@ CHECKS.update({
     ),
 })
 
+CHECKS.update({
+    "C10": dict(
+        engine="E1 + composite driver",
+        category="exploration",
+        text="Generated buffer shapes (1..8 buffers of every carrier type, empties anywhere, LimitedBuf), targets, offsets, flag subsets, zero-copy, extract, and a generated sequence of short transfer sizes per request; the simulated kernel's accepted/delivered byte stream is the oracle for all-or-error, offsets/flags/opcode of every continuation, WriteZero/UnexpectedEof conditions and buffer identity.",
+        design_ref="5/C10",
+        technique="property-based testing with a scripted short-transfer kernel and a byte-stream oracle",
+    ),
+})
+
 NOT_YET = {
 }
 
